@@ -49,15 +49,40 @@ SPECIAL = REQUIRED + FIRST
 # ---------------------------------------------------------------------------
 # Python <-> Gallina text
 
+def _armour(s):
+    out = []
+    for c in s:
+        o = ord(c)
+        if 32 <= o < 127 and c not in '"~':
+            out.append(c)
+        else:
+            out.append("~%06x" % o)
+    return "".join(out)
+
+
 def US(s):
-    """a Python str as Model.Pretty.ustr (list of code points)"""
+    """a Python str as Model.Pretty.ustr (list of code points), written as an ASCII-armoured Coq string"""
     if not s:
         return "[]"
-    return "[" + ";".join(str(ord(c)) for c in s) + "]%N"
+    return '(D "%s")' % _armour(s)
 
 
-def from_ustr(v):
-    return "".join(chr(i) for i in v)
+def from_coq_text(v):
+    """inverse of Model.Pretty.E on a parsed Coq string"""
+    s = v[1] if isinstance(v, tuple) and v and v[0] == "#str" else v
+    if s == "EmptyString":
+        return ""
+    out = []
+    i = 0
+    n = len(s)
+    while i < n:
+        if s[i] == "~":
+            out.append(chr(int(s[i + 1:i + 7], 16)))
+            i += 7
+        else:
+            out.append(s[i])
+            i += 1
+    return "".join(out)
 
 
 def opt(x, f):
@@ -100,7 +125,7 @@ def coq_msg(pairs):
 def opt_text(v):
     if v is None:
         return None
-    return from_ustr(v[1])
+    return from_coq_text(v[1])
 
 
 # ---------------------------------------------------------------------------
@@ -374,7 +399,7 @@ def impl_format(case):
 
 
 def model_format(case):
-    return "let m := %s in (d_pretty m, d_compact m)" % coq_msg(case["msg"])
+    return "d_format %s" % coq_msg(case["msg"])
 
 
 def model_obs_format(case, v):
@@ -638,7 +663,7 @@ def model_cli(case):
 
 def model_obs_cli(case, v):
     text, ok = flat(v, 2)
-    return {"out": from_ustr(text), "completed": bool(ok)}
+    return {"out": from_coq_text(text), "completed": bool(ok)}
 
 
 def project_cli(case, obs):
@@ -848,7 +873,7 @@ def model_filter(case):
 def model_obs_filter(case, v):
     rc, rest = v
     text, ok = rest
-    return {"out": from_ustr(text), "completed": bool(ok), "rc": rc}
+    return {"out": from_coq_text(text), "completed": bool(ok), "rc": rc}
 
 
 def project_filter(case, obs):
